@@ -316,6 +316,9 @@ class Job:
         # Evaluated Job-level task option overrides.
         self.eval_options: Optional[dict] = None
 
+        # Resource limits currently consumed by this job (None if it holds no resources).
+        self.consumed_limits: Optional[dict[str, int]] = None
+
         # The hash of (self.task.hash, self.arg_hash). This is used as the cache key.
         self.eval_hash: Optional[str] = None
 
@@ -1772,6 +1775,7 @@ class Scheduler:
                 self._add_job_pending_limits(job, eval_args)
                 return
             self._consume_resources(job_limits)
+            job.consumed_limits = job_limits
 
         # Record that the job is actually starting.
         if job.recording_provenance():
@@ -1850,8 +1854,9 @@ class Scheduler:
         assert self.thread_id == threading.get_ident()
 
         # Cached jobs won't have used any resources.
-        if not job.was_cached:
-            self._release_resources(job.get_limits())
+        if job.consumed_limits is not None:
+            self._release_resources(job.consumed_limits)
+            job.consumed_limits = None
             self._check_jobs_pending_limits()
 
         assert job.task
@@ -2078,9 +2083,11 @@ class Scheduler:
                 )
             )
 
-            # Cached jobs won't have used any resources.
-            if not job.was_cached:
-                self._release_resources(job.get_limits())
+            # Cached jobs won't have used any resources, and a job that fails while its result is
+            # being evaluated has already returned its resources when it was done.
+            if job.consumed_limits is not None:
+                self._release_resources(job.consumed_limits)
+                job.consumed_limits = None
                 self._check_jobs_pending_limits()
 
             if self.use_task_traceback:
